@@ -54,6 +54,29 @@ def sym_sptensor(S, name, Nn=None, zero_free=True, shape=None):
     return rec
 
 
+def attach_ghost(S, rec):
+    """Ghost look-up view of an sptensor record whose well-formedness (rows pairwise distinct)
+    has just been ASSUMED from a callee's postcondition: for pairwise distinct rows a look-up
+    function exists, so introducing it is a conservative extension."""
+    if not (isinstance(rec, Rec) and rec.cls == "sptensor") or hasattr(rec, "ghost") and "find" in getattr(rec, "ghost", {}):
+        return
+    subs, shape = rec.fields["subs"], rec.fields["shape"]
+    if not isinstance(subs, Arr) or subs.ndim != 2:
+        return
+    ctx = S.ctx
+    n = subs.shape[0]
+    rf = N.ensure_rows(ctx, subs)
+    srow = N.seq_as_row(ctx, shape)
+    find = z3.Function(T.fresh_name("res_find"), N.Row, I)
+    i = T.fresh_int("i")
+    r = z3.Const(T.fresh_name("r"), N.Row)
+    ctx.assume(T.ForAll([i], z3.Implies(z3.And(0 <= i, T.tz(i < n)), find(rf(i)) == i), [rf(i)]))
+    ctx.assume(T.ForAll([r], z3.Or(find(r) == -1, z3.And(0 <= find(r), T.tz(find(r) < n), rf(find(r)) == r)), [find(r)]))
+    g = dict(getattr(rec, "ghost", {}) or {})
+    g.update(find=find, n=n, srow=srow, N=seq_view(shape)[0])
+    rec.ghost = g
+
+
 def den(rec, r):
     """Den(S)(r) for an operand built by sym_sptensor."""
     find = rec.ghost["find"]
@@ -209,6 +232,16 @@ class _ValueMap(Contract):
 
     def setup(self, S, case):
         return dict(__self__=sym_sptensor(S, "A"))
+
+    def requires(self, S, a):
+        yield "receiver-has-ghost-view", hasattr(a["__self__"], "ghost")
+
+    def fresh_result(self, S, a):
+        R = fresh_sptensor_like(S, a["__self__"])
+        return R
+
+    def after_result(self, S, a, ret):
+        attach_ghost(S, ret)
 
     def ensures(self, S, a, ret):
         A = a["__self__"]
@@ -461,6 +494,9 @@ class sp_logical_not(Contract):
     def fresh_result(self, S, a):
         return fresh_sptensor_like(S, a["__self__"])
 
+    def after_result(self, S, a, ret):
+        attach_ghost(S, ret)
+
     def ensures(self, S, a, ret):
         A = a["__self__"]
         find = A.ghost["find"]
@@ -557,3 +593,322 @@ class sp_ne(_ScalarCompare):
     qual = Q + "__ne__"
     doc = "S != c (scalar): indicator of exactly the positions where Den(S) != c."
     op = staticmethod(lambda v, c: v != c)
+
+
+def _lam(src):
+    """A reducer written in pyttb's own style, as an interpreter value."""
+    import ast as _ast
+    from pyvc.values import FuncVal
+    return FuncVal(_ast.parse(src, mode="eval").body, {"__module__": "pyttb.sptensor"}, module="pyttb.sptensor")
+
+
+REDUCERS = {
+    "sum": ("sum", lambda x: x, lambda x, y: x + y),
+    "count==2": (lambda: _lam("lambda x: len(x) == 2"), lambda x: z3.RealVal(0), lambda x, y: z3.RealVal(1)),
+    "count>=1": (lambda: _lam("lambda x: len(x) >= 1"), lambda x: z3.RealVal(1), lambda x, y: z3.RealVal(1)),
+    "count==1": (lambda: _lam("lambda x: len(x) == 1"), lambda x: z3.RealVal(1), lambda x, y: z3.RealVal(0)),
+}
+
+
+def reducer_kind(fh):
+    """Which of the reducers above a function_handle argument is (None if unknown)."""
+    import ast as _ast
+    from pyvc.values import FuncVal
+    from pyvc.interp import Builtin
+    if isinstance(fh, str):
+        return fh if fh == "sum" else None
+    if isinstance(fh, Builtin) and fh.name == "sum":
+        return "sum"
+    if isinstance(fh, FuncVal) and isinstance(fh.node, _ast.Lambda):
+        txt = _ast.unparse(fh.node.body).replace(" ", "")
+        return {"len(x)==2": "count==2", "len(x)>=1": "count>=1", "len(x)==1": "count==1"}.get(txt)
+    return None
+
+
+@register
+class sp_from_aggregator(Contract):
+    qual = Q + "from_aggregator"
+    props = ("C06", "C20", "C03", "C19")
+    doc = (
+        "from_aggregator(subs, vals, shape, f) for ANY n x N integer subscript matrix (repeated rows "
+        "allowed): raises if a subscript is negative or outside the shape or the counts differ; "
+        "otherwise the result is well-formed (rows pairwise distinct, in range, one value each, no "
+        "stored zero), every stored row is an input row, an input row is stored iff its aggregated "
+        "group value gval is non-zero and then holds that value; gval of a row occurring once is "
+        "F1(v), of a row occurring exactly twice F2(v1, v2) (sum: v, v1+v2; count predicates accordingly)."
+    )
+    inline = INLINE_CTOR + ("pyttb.pyttb_utils.tt_subscheck", "pyttb.pyttb_utils.tt_valscheck")
+    loops = {
+        0: dict(
+            modifies=[],
+            inv=lambda S, a, env, i: _agg_loop_inv(S, a, env, i),
+        )
+    }
+
+    def case_names(self):
+        return list(REDUCERS)
+
+    def setup(self, S, case):
+        Nn = S.int("N", 1)
+        n = S.int("n", 0)
+        shape = S.vector("shape", Nn, "int", kind="tuple")
+        S.assume(S.forall(0, Nn, lambda q: shape.fn(q) >= 1, pats=lambda q: [shape.fn(q)]))
+        subs = S.row_matrix("subs", n, Nn)
+        vals = S.matrix("vals", n, 1, "real")
+        fh = REDUCERS[case][0]
+        a = dict(cls=None, subs=subs, vals=vals, shape=shape, function_handle=fh if isinstance(fh, str) else fh())
+        a["__case__"] = case
+        return a
+
+    def requires(self, S, a):
+        subs, vals = a["subs"], a["vals"]
+        yield "subs-is-a-matrix-and-vals-a-column", subs.ndim == 2 and vals.ndim == 2
+        if subs.ndim == 2 and vals.ndim == 2:
+            yield "one-value-per-subscript", S.And(S.eq(vals.shape[0], subs.shape[0]), S.eq(vals.shape[1], 1))
+            yield "one-column-per-mode", S.eq(subs.shape[1], seq_view(a["shape"])[0])
+        yield "known-reducer", reducer_kind(a["function_handle"]) is not None
+
+    def fresh_result(self, S, a):
+        shape = a["shape"]
+        Nn = seq_view(shape)[0]
+        nR = S.nat("agg_nnz")
+        rsubs = S.row_matrix("agg_subs", nR, Nn)
+        kind = reducer_kind(a["function_handle"])
+        rvals = S.matrix("agg_vals", nR, 1, "real" if kind == "sum" else "bool")
+        R = Rec("sptensor", dict(subs=rsubs, vals=rvals, shape=shape))
+        I_ = z3.IntSort()
+        R.ghost = dict(
+            gval=T.fresh_fun("gval", I_, z3.RealSort()), pos=T.fresh_fun("gpos", I_, I_), src=T.fresh_fun("gsrc", I_, I_),
+            oth=T.fresh_fun("goth", I_, I_), thr=T.fresh_fun("gthr", I_, I_, I_), kind=kind,
+        )
+        N.ensure_rows(S.ctx, a["subs"])
+        return R
+
+    def after_result(self, S, a, ret):
+        attach_ghost(S, ret)
+
+    def raises_when(self, S, a):
+        subs, shape = a["subs"], a["shape"]
+        if subs.ndim != 2:
+            return
+        N.ensure_rows(S.ctx, subs)
+        n, Nn = subs.shape
+        k, m = z3.Int("ag!k"), z3.Int("ag!m")
+        slen, sat = seq_view(shape)
+        yield "negative-subscript", T.Exists([k, m], z3.And(0 <= k, T.tz(k < n), 0 <= m, T.tz(m < Nn), T.tz(subs.fn(k, m)) < 0))
+        yield "subscript-outside-shape", T.Exists([k, m], z3.And(0 <= k, T.tz(k < n), 0 <= m, T.tz(m < Nn), m < T.tz(slen), T.tz(subs.fn(k, m)) >= sat(m)))
+
+    def ensures(self, S, a, ret):
+        subs, vals, shape = a["subs"], a["vals"], a["shape"]
+        n, Nn = subs.shape
+        srow = N.seq_as_row(S.ctx, shape)
+        yield "returns-sptensor", _is_sptensor(ret)
+        rsubs, rvals, _ = result_parts(ret)
+        rin = subs.rowfn
+        kk_ = z3.Int("ag!kk")
+        for ax in N.mixed_radix_axioms():
+            S.ctx.assume(ax)
+        yield "lemma:every-input-row-is-inside-the-shape", T.ForAll([kk_], z3.Implies(z3.And(0 <= kk_, T.tz(kk_ < n)), N.INRNG(srow, rin(kk_))), [rin(kk_)]), "lemma"
+        for c in wf_clauses(S, ret, srow, Nn):
+            yield c
+        if rsubs.ndim != 2:
+            return
+        m = rsubs.shape[0]
+        rf = N.ensure_rows(S.ctx, rsubs)
+        g = S.body_ghosts
+        k, k2, t = z3.Int("ag!k"), z3.Int("ag!k2"), z3.Int("ag!t")
+        yield "no-stored-zero", T.ForAll([t], z3.Implies(z3.And(0 <= t, T.tz(t < m)), T.tz(T.truthy(rvals.fn(t, 0)))))
+        if S.at_call_site:
+            gh = ret.ghost
+            kind = gh["kind"]
+            F1, F2 = REDUCERS[kind][1], REDUCERS[kind][2]
+            gval, pos, src, oth, thr = gh["gval"], gh["pos"], gh["src"], gh["oth"], gh["thr"]
+            v = lambda kk: T.tz(T.as_real(vals.fn(kk, 0)))
+            rv = lambda tt: T.tz(T.as_real(rvals.fn(tt, 0)))
+            yield "every-stored-row-is-an-input-row", T.ForAll(
+                [t], z3.Implies(z3.And(0 <= t, T.tz(t < m)), z3.And(0 <= src(t), T.tz(src(t) < n), rin(src(t)) == rf(t), rv(t) == gval(src(t)), pos(src(t)) == t)), [rf(t)])
+            yield "input-row-with-nonzero-group-value-is-stored-with-that-value", T.ForAll(
+                [k], z3.Implies(z3.And(0 <= k, T.tz(k < n), gval(k) != 0), z3.And(0 <= pos(k), T.tz(pos(k) < m), rf(pos(k)) == rin(k), rv(pos(k)) == gval(k))), [rin(k)])
+            yield "input-row-with-zero-group-value-is-not-stored", T.ForAll(
+                [k, t], z3.Implies(z3.And(0 <= k, T.tz(k < n), gval(k) == 0, 0 <= t, T.tz(t < m)), rf(t) != rin(k)), [[rin(k), rf(t)]])
+            yield "equal-rows-share-their-group", T.ForAll(
+                [k, k2], z3.Implies(z3.And(0 <= k, T.tz(k < n), 0 <= k2, T.tz(k2 < n), rin(k) == rin(k2)), gval(k) == gval(k2)), [[rin(k), rin(k2)]])
+            yield "group-of-a-row-occurring-once", T.ForAll(
+                [k], z3.Implies(z3.And(0 <= k, T.tz(k < n)),
+                                z3.Or(gval(k) == F1(v(k)), z3.And(0 <= oth(k), T.tz(oth(k) < n), oth(k) != k, rin(oth(k)) == rin(k)))), [rin(k)])
+            yield "group-of-a-row-occurring-twice", T.ForAll(
+                [k, k2], z3.Implies(z3.And(0 <= k, k < k2, T.tz(k2 < n), rin(k) == rin(k2)),
+                                    z3.Or(gval(k) == F2(v(k), v(k2)),
+                                          z3.And(0 <= thr(k, k2), T.tz(thr(k, k2) < n), thr(k, k2) != k, thr(k, k2) != k2, rin(thr(k, k2)) == rin(k)))), [[rin(k), rin(k2)]])
+            return
+        if not (g.get("unique") and g.get("accumarray") and g.get("select")):
+            # the only path without aggregation is the one for an empty input
+            yield "no-aggregation-only-for-empty-input", S.And(S.eq(n, 0), S.eq(m, 0))
+            return
+        (mu, idx, inv) = g["unique"][-1]
+        (cnt, mem1, oth, thr, acc) = g["accumarray"][-1]
+        (K, sel, rk) = g["select"][-1]
+        gval = lambda kk: acc(inv(kk))
+        pos = lambda kk: rk(inv(kk))
+        src = lambda tt: idx(sel(tt))
+        F1, F2 = REDUCERS[a["__case__"]][1], REDUCERS[a["__case__"]][2]
+        v = lambda kk: T.tz(vals.fn(kk, 0))
+        yield "every-stored-row-is-an-input-row", T.ForAll(
+            [t], z3.Implies(z3.And(0 <= t, T.tz(t < m)), z3.And(0 <= src(t), T.tz(src(t) < n), rin(src(t)) == rf(t), T.tz(T.as_real(rvals.fn(t, 0))) == T.tz(T.as_real(gval(src(t))))))), "lemma"
+        yield "input-row-with-nonzero-group-value-is-stored-with-that-value", T.ForAll(
+            [k], z3.Implies(z3.And(0 <= k, T.tz(k < n), T.tz(T.truthy(gval(k)))),
+                            z3.And(0 <= pos(k), T.tz(pos(k) < m), rf(pos(k)) == rin(k), T.tz(T.as_real(rvals.fn(pos(k), 0))) == T.tz(T.as_real(gval(k))))), [rin(k)]), "lemma"
+        yield "input-row-with-zero-group-value-is-not-stored", T.ForAll(
+            [k, t], z3.Implies(z3.And(0 <= k, T.tz(k < n), z3.Not(T.tz(T.truthy(gval(k)))), 0 <= t, T.tz(t < m)), rf(t) != rin(k)))
+        yield "equal-rows-share-their-group", T.ForAll(
+            [k, k2], z3.Implies(z3.And(0 <= k, T.tz(k < n), 0 <= k2, T.tz(k2 < n), rin(k) == rin(k2)), inv(k) == inv(k2)), [[rin(k), rin(k2)]]), "lemma"
+        yield "group-of-a-row-occurring-once", T.ForAll(
+            [k], z3.Implies(z3.And(0 <= k, T.tz(k < n)),
+                            z3.Or(T.tz(T.as_real(gval(k))) == F1(v(k)),
+                                  z3.And(0 <= oth(k), T.tz(oth(k) < n), oth(k) != k, rin(oth(k)) == rin(k)))), [oth(k)])
+        yield "group-of-a-row-occurring-twice", T.ForAll(
+            [k, k2], z3.Implies(z3.And(0 <= k, k < k2, T.tz(k2 < n), rin(k) == rin(k2)),
+                                z3.Or(T.tz(T.as_real(gval(k))) == F2(v(k), v(k2)),
+                                      z3.And(0 <= thr(k, k2), T.tz(thr(k, k2) < n), thr(k, k2) != k, thr(k, k2) != k2, rin(thr(k, k2)) == rin(k)))), [thr(k, k2)])
+
+
+def _agg_loop_inv(S, a, env, i):
+    """Shape check loop of from_aggregator: the modes checked so far hold no subscript >= shape."""
+    subs, shape = env["subs"], env["shape"]
+    n = subs.shape[0]
+    slen, sat = seq_view(shape)
+    k, m = z3.Int("li!k"), z3.Int("li!m")
+    return T.ForAll([k, m], z3.Implies(z3.And(0 <= k, T.tz(k < n), 0 <= m, T.tz(m < i)), T.tz(subs.fn(k, m)) < sat(m)))
+
+
+def den_binary_clauses(S, ret, A, B, f, witness=None, tag="den"):
+    """WF(ret) and Den(ret)(r) = f(Den(A)(r), Den(B)(r)) in 'stored entries + absent rows' form."""
+    g = A.ghost
+    srow, Nn = g["srow"], g["N"]
+    out = [("returns-sptensor", _is_sptensor(ret))]
+    if not _is_sptensor(ret):
+        return out
+    out.append(("shape-kept", shape_equal(S, ret.fields["shape"], A.fields["shape"])))
+    out += wf_clauses(S, ret, srow, Nn)
+    subs, vals, _ = result_parts(ret)
+    if subs.ndim != 2 or vals.ndim != 2:
+        return out
+    m = subs.shape[0]
+    rf = N.ensure_rows(S.ctx, subs)
+    k = z3.Int(tag + "!k")
+    r = z3.Const(tag + "!r", N.Row)
+    val = lambda row: f(den(A, row), den(B, row))
+    out.append((f"{tag}:stored-value-is-the-combination", T.ForAll([k], z3.Implies(z3.And(0 <= k, T.tz(k < m)), T.tz(T.as_real(vals.fn(k, 0))) == val(rf(k))))))
+    out.append((f"{tag}:no-stored-zero", T.ForAll([k], z3.Implies(z3.And(0 <= k, T.tz(k < m)), T.tz(T.as_real(vals.fn(k, 0))) != 0))))
+    if witness is not None:
+        out.append((f"{tag}:every-position-with-a-nonzero-combination-is-stored(witness)", T.ForAll(
+            [r], z3.Implies(z3.And(N.INRNG(srow, r), val(r) != 0), z3.And(0 <= witness(r), T.tz(witness(r) < m), rf(witness(r)) == r)), [N.INRNG(srow, r)])))
+    else:
+        out.append((f"{tag}:every-position-with-a-nonzero-combination-is-stored", T.ForAll(
+            [r], z3.Implies(z3.And(N.INRNG(srow, r), val(r) != 0), T.Exists([k], z3.And(0 <= k, T.tz(k < m), rf(k) == r))))))
+    return out
+
+
+class _AddSub(Contract):
+    props = ("C03", "C06", "C19")
+    inline = INLINE_CTOR + (Q + "nnz",)
+    f = None
+
+    def setup(self, S, case):
+        A = sym_sptensor(S, "A")
+        B = sym_sptensor(S, "B")
+        return dict(__self__=A, other=B)
+
+    def raises_when(self, S, a):
+        A, B = a["__self__"], a["other"]
+        yield "shape-mismatch", S.Not(shape_equal(S, A.fields["shape"], B.fields["shape"]))
+
+    def ensures(self, S, a, ret):
+        A, B = a["__self__"], a["other"]
+        nA = A.ghost["n"]
+        fa, fb = A.ghost["find"], B.ghost["find"]
+        wit = None
+        gs = S.body_ghosts.get("call:from_aggregator")
+        if gs:
+            pos = gs[-1].ghost["pos"]
+            wit = lambda r: z3.If(fa(r) >= 0, pos(fa(r)), pos(nA + fb(r)))
+        for c in den_binary_clauses(S, ret, A, B, type(self).f, wit):
+            yield c
+
+
+@register
+class sp_sub(_AddSub):
+    qual = Q + "__sub__"
+    doc = "S - O (two well-formed sptensors of equal shape): well-formed, zero-free, Den(result) = Den(S) - Den(O); other shapes raise."
+    f = staticmethod(lambda x, y: x - y)
+
+
+def _binary_fresh(self, S, a):
+    return fresh_sptensor_like(S, a["__self__"])
+
+
+_AddSub.fresh_result = _binary_fresh
+_AddSub.after_result = lambda self, S, a, ret: attach_ghost(S, ret)
+_AddSub.requires = lambda self, S, a: iter([("operands-have-ghost-views", hasattr(a["__self__"], "ghost") and isinstance(a["other"], Rec) and hasattr(a["other"], "ghost"))])
+
+
+@register
+class sp_add(_AddSub):
+    qual = Q + "__add__"
+    doc = "S + O (two well-formed sptensors of equal shape): well-formed, zero-free, Den(result) = Den(S) + Den(O); other shapes raise."
+    f = staticmethod(lambda x, y: x + y)
+
+    def ensures(self, S, a, ret):
+        A, B = a["__self__"], a["other"]
+        # the body computes S - (-O): witnesses come from the contracted calls
+        for c in den_binary_clauses(S, ret, A, B, type(self).f, None):
+            yield c
+
+
+class _LogicalSparse(Contract):
+    props = ("C03", "C06", "C19")
+    inline = INLINE_CTOR + (Q + "nnz",)
+    pred = None
+
+    def setup(self, S, case):
+        A = sym_sptensor(S, "A")
+        B = sym_sptensor(S, "B")
+        return dict(__self__=A, other=B)
+
+    def raises_when(self, S, a):
+        A, B = a["__self__"], a["other"]
+        yield "shape-mismatch", S.Not(shape_equal(S, A.fields["shape"], B.fields["shape"]))
+
+    def ensures(self, S, a, ret):
+        A, B = a["__self__"], a["other"]
+        nA = A.ghost["n"]
+        fa, fb = A.ghost["find"], B.ghost["find"]
+        p = type(self).pred
+        wit = None
+        gs = S.body_ghosts.get("call:from_aggregator")
+        if gs:
+            pos = gs[-1].ghost["pos"]
+            wit = lambda r: z3.If(fa(r) >= 0, pos(fa(r)), pos(nA + fb(r)))
+        for c in indicator_clauses(S, ret, A, lambda r: p(fa(r) >= 0, fb(r) >= 0), wit):
+            yield c
+
+
+@register
+class sp_logical_and(_LogicalSparse):
+    qual = Q + "logical_and"
+    doc = "S.logical_and(O) for two well-formed sptensors of equal shape: well-formed indicator of the positions where both are nonzero."
+    pred = staticmethod(lambda x, y: z3.And(x, y))
+
+
+@register
+class sp_logical_or(_LogicalSparse):
+    qual = Q + "logical_or"
+    doc = "S.logical_or(O): indicator of the positions where at least one operand is nonzero."
+    pred = staticmethod(lambda x, y: z3.Or(x, y))
+
+
+@register
+class sp_logical_xor(_LogicalSparse):
+    qual = Q + "logical_xor"
+    doc = "S.logical_xor(O): indicator of the positions where exactly one operand is nonzero."
+    pred = staticmethod(lambda x, y: z3.Xor(x, y))
